@@ -101,17 +101,20 @@ struct Cfg {
     to: usize,
     /// the pool carries a packet filter that admits one of the two connections only
     flt: bool,
+    /// the pool is ended the way `process_parallel` ends it: `shutdown()` right after the last dispatch, pool kept alive
+    /// (TCP pool only; the other two are ended by dropping the pool, as their analyzers do)
+    term: bool,
 }
 impl Cfg {
     fn to_s(&self) -> String {
-        format!("{}:{}:{}:{}:{}:{}:{}:{}", self.prop, self.pool, self.workers, self.cap, self.batch, self.pb.map(|p| p.to_string()).unwrap_or("none".into()), self.to, self.flt as u8)
+        format!("{}:{}:{}:{}:{}:{}:{}:{}:{}", self.prop, self.pool, self.workers, self.cap, self.batch, self.pb.map(|p| p.to_string()).unwrap_or("none".into()), self.to, self.flt as u8, self.term as u8)
     }
     fn parse(s: &str) -> Option<Cfg> {
         let p: Vec<&str> = s.split(':').collect();
-        if p.len() != 8 {
+        if p.len() != 8 && p.len() != 9 {
             return None;
         }
-        Some(Cfg { prop: p[0].into(), pool: p[1].into(), workers: p[2].parse().ok()?, cap: p[3].parse().ok()?, batch: p[4].parse().ok()?, pb: p[5].parse().ok(), to: p[6].parse().ok()?, flt: p[7] == "1" })
+        Some(Cfg { prop: p[0].into(), pool: p[1].into(), workers: p[2].parse().ok()?, cap: p[3].parse().ok()?, batch: p[4].parse().ok()?, pb: p[5].parse().ok(), to: p[6].parse().ok()?, flt: p[7] == "1", term: p.get(8) == Some(&"1") })
     }
 }
 
@@ -156,6 +159,7 @@ fn c18_one(c: &Cfg) -> (usize, Vec<String>) {
         .collect();
     crate::shim::vchan::TIMEOUT_BUDGET.store(c.to, std::sync::atomic::Ordering::Relaxed);
     let n = model(c.pb, move || {
+        shim::vchan::registry_clear();
         let mut got: Vec<String> = vec![];
         let mut queued_flags: Vec<bool> = vec![];
         let counters: (u64, u64, u64);
@@ -291,7 +295,9 @@ fn c10_one(c: &Cfg) -> (usize, Vec<String>) {
     assert!(seq.len() >= if flt { 1 } else { 2 }, "sequential reference yields {} results; harness would be vacuous", seq.len());
     crate::shim::vchan::TIMEOUT_BUDGET.store(c.to, std::sync::atomic::Ordering::Relaxed);
     let trace = full_trace;
+    let term = c.term;
     let n = model(c.pb, move || {
+        shim::vchan::registry_clear();
         let mut got: Vec<String> = vec![];
         match pool_kind.as_str() {
             "tcp" => {
@@ -300,13 +306,22 @@ fn c10_one(c: &Cfg) -> (usize, Vec<String>) {
                 for f in &trace {
                     assert!(pool.dispatch(f.clone()) == tcp_parallel::DispatchResult::Queued, "queue overflow in a no-overflow harness");
                 }
-                drop(pool);
+                let keep = if term {
+                    // HuginnNetTcp::process_parallel: shutdown straight after the last dispatch, the analyzer keeps the pool
+                    pool.shutdown();
+                    shim::vchan::expire_all();
+                    Some(pool)
+                } else {
+                    drop(pool);
+                    None
+                };
                 while let Ok(r) = rx.recv() {
                     let s = drv::tcp_res(&r);
                     if !s.is_empty() {
                         got.push(format!("{s:?}"));
                     }
                 }
+                drop(keep);
             }
             "http" => {
                 let (tx, rx) = shim::vstd::sync::mpsc::channel();
@@ -363,6 +378,7 @@ fn c10_one(c: &Cfg) -> (usize, Vec<String>) {
             assert_eq!(a, b, "results of {k} arrive in another order than sequentially");
         }
         oc.lock().unwrap().insert(got.iter().map(key).collect::<Vec<_>>().join(">"));
+        shim::vchan::registry_clear();
     });
     let o = outcomes.lock().unwrap().iter().cloned().collect();
     (n, o)
@@ -375,38 +391,45 @@ fn configs(prop: &str, thorough: bool) -> Vec<Cfg> {
             // the filtered pool only: every packet of every batch goes through the filter, whatever the schedule
             for workers in [1usize, 2] {
                 for batch in [1usize, 2, 32] {
-                    v.push(Cfg { prop: prop.into(), pool: pool.into(), workers, cap: 8, batch, pb: Some(if thorough { 3 } else { 2 }), to: 0, flt: true });
+                    v.push(Cfg { prop: prop.into(), pool: pool.into(), workers, cap: 8, batch, pb: Some(if thorough { 3 } else { 2 }), to: 0, flt: true, term: false });
                 }
             }
-            v.push(Cfg { prop: prop.into(), pool: pool.into(), workers: 1, cap: 8, batch: 32, pb: Some(2), to: 1, flt: true });
+            v.push(Cfg { prop: prop.into(), pool: pool.into(), workers: 1, cap: 8, batch: 32, pb: Some(2), to: 1, flt: true, term: false });
             continue;
         }
         if prop == "C18" {
             // one worker: every capacity and batch size; two workers (packets spread over both queues): capacity x batch 1
             for cap in [0usize, 1, 2] {
                 for batch in [1usize, 32] {
-                    v.push(Cfg { prop: prop.into(), pool: pool.into(), workers: 1, cap, batch, pb: Some(if thorough { 3 } else { 2 }), to: 0, flt: false });
+                    v.push(Cfg { prop: prop.into(), pool: pool.into(), workers: 1, cap, batch, pb: Some(if thorough { 3 } else { 2 }), to: 0, flt: false, term: false });
                 }
-                v.push(Cfg { prop: prop.into(), pool: pool.into(), workers: 2, cap, batch: 1, pb: Some(if thorough { 2 } else { 1 }), to: 0, flt: false });
+                v.push(Cfg { prop: prop.into(), pool: pool.into(), workers: 2, cap, batch: 1, pb: Some(if thorough { 2 } else { 1 }), to: 0, flt: false, term: false });
                 // one Timeout answer per worker queue (the worker may run dry between the dispatchers' packets)
                 if cap == 1 || thorough {
-                    v.push(Cfg { prop: prop.into(), pool: pool.into(), workers: 1, cap, batch: 1, pb: Some(2), to: 1, flt: false });
+                    v.push(Cfg { prop: prop.into(), pool: pool.into(), workers: 1, cap, batch: 1, pb: Some(2), to: 1, flt: false, term: false });
                 }
             }
         } else {
             for workers in [1usize, 2, 3] {
                 for batch in [1usize, 2, 32] {
-                    v.push(Cfg { prop: prop.into(), pool: pool.into(), workers, cap: 8, batch, pb: Some(if thorough { 3 } else { 2 }), to: 0, flt: false });
+                    v.push(Cfg { prop: prop.into(), pool: pool.into(), workers, cap: 8, batch, pb: Some(if thorough { 3 } else { 2 }), to: 0, flt: false, term: false });
                     // the same with one (thorough: also two) Timeout answers per worker queue
                     if batch != 2 || thorough {
-                        v.push(Cfg { prop: prop.into(), pool: pool.into(), workers, cap: 8, batch, pb: Some(2), to: 1, flt: false });
+                        v.push(Cfg { prop: prop.into(), pool: pool.into(), workers, cap: 8, batch, pb: Some(2), to: 1, flt: false, term: false });
                     }
                     // with a packet filter on the pool (every packet of a batch must pass through it)
                     if workers <= 2 && batch != 1 {
-                        v.push(Cfg { prop: prop.into(), pool: pool.into(), workers, cap: 8, batch, pb: Some(2), to: 0, flt: true });
+                        v.push(Cfg { prop: prop.into(), pool: pool.into(), workers, cap: 8, batch, pb: Some(2), to: 0, flt: true, term: false });
                     }
                     if thorough && workers <= 2 {
-                        v.push(Cfg { prop: prop.into(), pool: pool.into(), workers, cap: 8, batch, pb: Some(2), to: 2, flt: false });
+                        v.push(Cfg { prop: prop.into(), pool: pool.into(), workers, cap: 8, batch, pb: Some(2), to: 2, flt: false, term: false });
+                    }
+                    // ended by shutdown() with packets still queued, as HuginnNetTcp::process_parallel ends it
+                    if pool == "tcp" && workers <= 2 {
+                        v.push(Cfg { prop: prop.into(), pool: pool.into(), workers, cap: 8, batch, pb: Some(if thorough { 3 } else { 2 }), to: 0, flt: false, term: true });
+                        if batch != 2 || thorough {
+                            v.push(Cfg { prop: prop.into(), pool: pool.into(), workers, cap: 8, batch, pb: Some(2), to: 1, flt: false, term: true });
+                        }
                     }
                 }
             }
